@@ -130,3 +130,17 @@ def build(run):
                            covers=["tiny time value reachable", "tiny random value reachable", "13-digit values reachable"],
                            role=lambda v, o: "tiny-clock-or-rng-value",
                            claim="&time_part[..] and &random_part[..] in add_ids never panic (slice index underflow) whatever the clock / RNG return")], timeout=300)
+
+    # ---- K-C08-c: intent lexer (shared with C19) and K-C08-e: preference setter (shared with C12) -----------------------------
+    from checks import C19, C12
+    ntok = 3 if run.tier == "quick" else 4
+    crate3, _ = C19.lexer_crate(run, "c08lex", ntok)
+    lem = C19.lexer_lemma(run, crate3, ntok)
+    lem["id"] = "K-C08-c.intent_lexer_step"
+    crate4, lemmas4 = C12.kernel(run, "c08prefs")
+    l4 = dict(lemmas4[0], id="K-C08-e.set_string_pref")
+    import kani_run as _kr
+    res = _kr.run_all([(crate3, lem["harness"], {"timeout": 900 if run.tier == "quick" else 3000}), (crate4, l4["harness"], {"timeout": 900})])
+    run.crates += [crate3, crate4]
+    run._kani_result(crate3, lem, res[0])
+    run._kani_result(crate4, l4, res[1])
